@@ -89,7 +89,7 @@ pub fn observe_guarded(text: &str, budget: std::time::Duration) -> Obs {
   }
 }
 
-pub struct C09 { tier: Tier, corpus: Vec<String> }
+pub struct C09 { tier: Tier, corpus: Vec<String>, docs: Vec<(String, String)> }
 
 fn load_corpus() -> Vec<String> {
   // blocks (blank-line separated) of every .mec file of the repository, at most 160 bytes each
@@ -107,7 +107,8 @@ fn load_corpus() -> Vec<String> {
 }
 
 impl C09 {
-  pub fn new(tier: Tier) -> C09 { C09 { tier, corpus: load_corpus() } }
+  pub fn new(tier: Tier) -> C09 { let lim = tier.pick(12_000, usize::MAX); C09 { tier, corpus: load_corpus(), docs: super::c08::repo_documents().into_iter().filter(|(_, t)| t.len() <= lim).collect() } }
+  fn n_doc_units(&self) -> u64 { self.docs.len() as u64 }
   fn n_tok_units(&self) -> u64 { (TOKENS.len() * TOKENS.len()) as u64 }
   fn corpus_stride(&self) -> usize { self.tier.pick(48, 2) }
   fn n_corpus_units(&self) -> u64 { 4 * ((self.corpus.len() + self.corpus_stride() - 1) / self.corpus_stride()) as u64 }
@@ -156,12 +157,22 @@ impl UnitRunner for C09 {
       let (fam_i, depth) = (k / 5, k % 5 + 1);
       if depth > self.tier.pick(4usize, 5usize) { return; }
       if let Some((o, m, c)) = NEST.get(fam_i) { for d in depth..=depth { inputs.push((format!("{}{}{}", o.repeat(d), m, c.repeat(d)), "nesting")); inputs.push((format!("{}{}", o.repeat(d), m), "nesting-unclosed")); inputs.push((format!("{}{}", m, c.repeat(d)), "nesting-unopened")); } }
+      // whole documents of the repository (and, thorough, every prefix of the smaller ones that ends at a line end)
+      if k >= NEST.len() * 5 {
+        if let Some((_, text)) = self.docs.get(k - NEST.len() * 5) {
+          inputs.push((text.clone(), "document"));
+          if self.tier == Tier::Thorough && text.len() <= 6000 {
+            let mut at = 0;
+            for line in text.split_inclusive('\n') { at += line.len(); if at < text.len() { inputs.push((text[..at].to_string(), "document-line-prefix")); } }
+          }
+        }
+      }
     }
     let cross = payload == "pass2";
     for (text, fam) in inputs {
       // the parser is exponential in bracket nesting: more than 4 (quick) / 5 (thorough) opening brackets are outside the stated bound
       let openers = text.chars().filter(|c| matches!(c, '[' | '{' | '(' | '<')).count();
-      if fam != "corpus" && fam != "corpus-prefix" && fam != "corpus-delete" && fam != "corpus-swap" && fam != "corpus-duplicate" && openers > self.tier.pick(4, 5) { out.count("skipped_nesting_beyond_bound"); continue; }
+      if fam != "corpus" && fam != "corpus-prefix" && fam != "corpus-delete" && fam != "corpus-swap" && fam != "corpus-duplicate" && fam != "document" && fam != "document-line-prefix" && openers > self.tier.pick(4, 5) { out.count("skipped_nesting_beyond_bound"); continue; }
       out.evaluations += 1;
       let o = observe_guarded(&text, budget);
       if o.kind != "panic" { out.nontrivial += 1; }
@@ -181,9 +192,9 @@ impl Check for C09 {
   fn level(&self) -> &'static str { "exploration" }
   fn unit_budget(&self, t: Tier) -> Duration { Duration::from_secs(t.pick(120, 600)) }
   fn drive(&mut self, tier: Tier, cfg: &PoolCfg, rep: &mut Report) {
-    let total = self.n_tok_units() + self.n_corpus_units() + NEST.len() as u64 * 5;
+    let total = self.n_tok_units() + self.n_corpus_units() + NEST.len() as u64 * 5 + self.n_doc_units();
     let (a, b) = (self.n_tok_units(), self.n_corpus_units());
-    rep.describe = Some(Box::new(move |_p, u| (if u < a { "token-strings" } else if u < a + b { "corpus" } else { "nesting" }.to_string(), format!("unit {} (the worker names the exact text when it times a parse out)", u))));
+    rep.describe = Some(Box::new(move |_p, u| (if u < a { "token-strings" } else if u < a + b { "corpus" } else { "nesting-or-document" }.to_string(), format!("unit {} (the worker names the exact text when it times a parse out)", u))));
     // pass 1: everything; pass 2 (other worker processes): one-/two-token strings, corpus and nesting again, digests compared
     let mut digests: Vec<std::collections::BTreeMap<String, String>> = vec![Default::default(), Default::default()];
     for pass in 0..2 {
@@ -196,7 +207,7 @@ impl Check for C09 {
     let mut compared = 0u64;
     for (t, d) in &digests[1] { if let Some(d0) = digests[0].get(t) { compared += 1; if d0 != d { rep.out.failures.push(Failure { key: "C09|nondeterministic|across-processes".into(), case: format!("parse({:?})", t), detail: "the outcome (tree or report rendering) differs between two processes".into(), payload: "pass1".into(), unit: 0 }); } } }
     rep.cov("texts_compared_across_processes", json!(compared));
-    rep.rule = format!("every string of 1..2 tokens, and of 3 tokens with the third from 18 construct tokens (8 for pairs holding one of the 40 rarer sigils) (quick) / from the whole alphabet (thorough), over a {}-token alphabet (identifiers, digits, every bracket, operators, quotes, fences, comment sigils, box-drawing arm glyphs, an emoji, a combining sequence, CRLF, and every other leaf token of the parser: callout / float / prompt / footnote / image / highlight sigils, arrows, Mika glyphs, ...){}; {} blocks of the repository's own .mec files (every {}th block of <= 160 bytes) with every single-grapheme deletion, duplication, adjacent swap and every prefix; bracket/quote nesting families to depth 4 (quick) / 5 (thorough); \
+    rep.rule = format!("every string of 1..2 tokens, and of 3 tokens with the third from 18 construct tokens (8 for pairs holding one of the 40 rarer sigils) (quick) / from the whole alphabet (thorough), over a {}-token alphabet (identifiers, digits, every bracket, operators, quotes, fences, comment sigils, box-drawing arm glyphs, an emoji, a combining sequence, CRLF, and every other leaf token of the parser: callout / float / prompt / footnote / image / highlight sigils, arrows, Mika glyphs, ...){}; {} blocks of the repository's own .mec files (every {}th block of <= 160 bytes) with every single-grapheme deletion, duplication, adjacent swap and every prefix; bracket/quote nesting families to depth 4 (quick) / 5 (thorough); every whole .mec document of the repository up to 12 KB (quick) / of any size (thorough) and, thorough, every prefix of the documents up to 6 KB that ends at a line end; \
       each text is parsed twice in a watchdog thread ({} s budget): the outcome must be a tree or an error report, never a panic or a non-terminating parse; every cause and annotation range of a report must lie inside text+newline with start <= end; the two parses and a parse in another worker process must render identically; evaluations = texts; non-trivial = texts that produced a tree or a report",
       TOKENS.len(), if tier == Tier::Thorough { " and every 4-token string over the 26 construct-opening/closing tokens" } else { "" }, self.n_corpus_units(), self.corpus_stride(), tier.pick(20, 40));
     rep.assumptions = vec!["a parse is called non-terminating when it exceeds the stated budget; nesting deeper than 5 is outside the bound (the parser is exponential in nesting depth)".into(), "rendering an error report (TextFormatter::format_error) is not part of this check".into(), "'reads nothing but the text' is checked structurally: parse() receives only the &str and the harness gives it no file or interpreter".into()];
